@@ -1,6 +1,7 @@
 import Drv.Trunc
 import Drv.Walk
 import Drv.Rules
+import Drv.Render
 /-!
 Line-protocol driver: one operation per line on stdin, one canonical answer line on stdout.
 Every engine exports `handle : List String → Option String` answering only its own ops;
@@ -11,7 +12,8 @@ open Proto
 def handlers : List (List String → Option String) := [
   Drv.Trunc.handle,
   Drv.WalkD.handle,
-  Drv.RulesD.handle
+  Drv.RulesD.handle,
+  Drv.RenderD.handle
 ]
 
 def dispatch (fs : List String) : Option String :=
